@@ -32,7 +32,9 @@ ASSUMPTIONS = [
     "reference screens: each (padded) frame executed alone at the draw origin on the same initial screen; after the "
     "call the screen must equal the last frame's reference followed by one newline",
     "sleeps are virtualised (the library's time/sleep names are replaced by a logical clock)",
-    "old API: image size validation is only asserted for fixed sizes ('if set'), as documented",
+    "old API: the documented validation rules (check_size / scroll / animations) are asserted for the size the "
+    "image is rendered with, whether it was fixed beforehand or is computed at render time (FIT and AUTO always "
+    "fit; ORIGINAL and FIT_TO_WIDTH need not)",
 ]
 MIN_EVENTS = {"draw calls executed": {"quick": 1200, "thorough": 40000}, "frames observed at flush boundaries": {"quick": 2500, "thorough": 80000}}
 SHARDS = 16
@@ -240,7 +242,7 @@ def run_old(case, env, res, tmpdir, state):
         expect = ValueError
     elif animation and ph > rows:
         expect = ValueError
-    elif fixed and (case["check_size"] or animation) and (W > cols or ((animation or not case["scroll"]) and H > rows)):
+    elif (case["check_size"] or animation) and (W > cols or ((animation or not case["scroll"]) and H > rows)):
         expect = InvalidSizeError
     r0 = case["r0f"] * (rows - 1) // 1000
     style = dict(case.get("style_kw") or {})
@@ -321,7 +323,7 @@ def gen_old(rnd, persona):
     elif sizing < 0.85:
         size_kw = dict(height=rnd.randint(1, 5))
     else:
-        size_enum = rnd.choice(["FIT", "AUTO"])
+        size_enum = rnd.choice(["FIT", "AUTO", "FIT_TO_WIDTH", "ORIGINAL", "ORIGINAL"])
     case = dict(api="old", style=style, term=[cols, rows], frames=frames, fmt=rnd.choice(["GIF", "GIF", "WEBP"]), src=[rnd.randint(2, 12), rnd.randint(2, 12)], size_kw=size_kw, size_enum=size_enum, seed=rnd.getrandbits(32))
     case.update(
         h=rnd.choice([None, "<", "|", ">", "left", "right"]),
